@@ -255,6 +255,12 @@ func runPurge(rc *RunCtx, prop, variant string) *simkit.Violation {
 		}
 		if t.Bool(1, 2) {
 			w.Faults = &simkit.FaultCfg{Stall: 60, Budget: 2, Eligible: func(c *simkit.Call) bool { return c.Client == purger }} // slow calls only: the 5-minute uploader fires
+			if t.Bool(1, 3) {
+				// a very slow scan over small chunks: the periodic uploader writes several chunks before the scan ends
+				w.Faults.Stall, w.Faults.Budget = 250, 8
+				chunk = uint64(t.Pick(1, 2, 3))
+				w.Probe("slow-scan-small-chunks")
+			}
 		}
 	case "crash-resume":
 		// the build dies at one of its writes (two per index chunk: delete, put), early or after many chunks; sometimes it
